@@ -94,6 +94,7 @@ HEADER = ('From Coq Require Import List NArith ZArith Bool String Ascii.\n'
           'Open Scope string_scope.\n')
 
 ALPHABET = '012.-+ed'
+ALPHABET_B = '07.-+EDd'
 MASK = (1 << 63) - 1
 
 
@@ -185,9 +186,9 @@ def hash_case(s):
     return hash_string(text, (h * 1000003 + (62 if fl else 33)) & MASK)
 
 
-def words_upto(n):
+def words_upto(n, alphabet=ALPHABET):
     for length in range(n + 1):
-        for tup in itertools.product(ALPHABET, repeat=length):
+        for tup in itertools.product(alphabet, repeat=length):
             yield ''.join(tup)
 
 
@@ -216,17 +217,17 @@ def spelling_violation(res, s, tie):
     return False
 
 
-def tie_norm(res, tier, rng):
+def tie_norm_exhaustive(res, tier, alphabet, check_fun, label):
     maxlen = 6 if tier == 'quick' else 7
     tail = maxlen - 2
-    suffixes = list(words_upto(tail))
+    suffixes = list(words_upto(tail, alphabet))
     cases, meta = [], []
-    short = sum(hash_case(w) for w in words_upto(1)) & MASK
+    short = sum(hash_case(w) for w in words_upto(1, alphabet)) & MASK
     cases.append(cpair(cstr(''), '1%nat', f'(Uint63.of_Z {short}%Z)'))
     meta.append(('', 1))
     n_strings = 9
-    for a in ALPHABET:
-        for b in ALPHABET:
+    for a in alphabet:
+        for b in alphabet:
             prefix = a + b
             total = 0
             for w in suffixes:
@@ -235,24 +236,25 @@ def tie_norm(res, tier, rng):
                                f'(Uint63.of_Z {total & MASK}%Z)'))
             meta.append((prefix, tail))
             n_strings += len(suffixes)
-    res.count('norm:exhaustive-strings', n_strings)
+    res.count(f'norm:exhaustive-strings-{label}', n_strings)
     res.evaluations += n_strings
-    bad, errs = common.run_case_files('c09_bucket', HEADER,
+    bad, errs = common.run_case_files(f'c09_bucket{label}', HEADER,
                                       'string * nat * Uint63.int',
-                                      'check_bucket', cases, chunk=5)
-    res.obligation(f'tie:norm-exhaustive (all {n_strings} strings of length '
-                   f'<= {maxlen} over "{ALPHABET}": normalize_float and '
+                                      check_fun, cases, chunk=5)
+    tie = f'tie:norm-exhaustive-{label}'
+    res.obligation(f'{tie} (all {n_strings} strings of length '
+                   f'<= {maxlen} over "{alphabet}": normalize_float and '
                    'float() acceptance, 65 bucket fingerprints)',
                    not bad and not errs, f'bad buckets {bad} {errs[:1]}')
     for idx in bad[:3]:
         prefix, n = meta[idx]
-        words = [prefix + w for w in words_upto(n)]
+        words = [prefix + w for w in words_upto(n, alphabet)]
         sub_bad, _ = common.run_case_files(
             'c09_expand', HEADER, 'string * res (string * bool)',
             'check_norm', [norm_case(w) for w in words], chunk=600)
         found = False
         for k in sub_bad[:200]:
-            found = spelling_violation(res, words[k], 'tie:norm') or found
+            found = spelling_violation(res, words[k], tie) or found
         if not found:
             shown = [words[k] for k in sub_bad[:5]]
             model = [common.coq_eval(HEADER, f'norm_out {cstr(w)}')[0]
@@ -264,8 +266,13 @@ def tie_norm(res, tier, rng):
                           f'model {model}',
                           {'input': {'spelling': shown[0] if shown else prefix},
                            'disagreeing': [words[k] for k in sub_bad[:50]],
-                           'theorem_or_correspondence': 'tie:norm-exhaustive'},
+                           'theorem_or_correspondence': tie},
                           found_input=False)
+
+
+def tie_norm(res, tier, rng):
+    tie_norm_exhaustive(res, tier, ALPHABET, 'check_bucket', 'a')
+    tie_norm_exhaustive(res, tier, ALPHABET_B, 'check_bucket_b', 'b')
 
     # doctests + structured spellings + random strings over a wider alphabet
     strings = [s for s, _ in c09_gen.DOCTESTS]
